@@ -569,6 +569,20 @@ func runC06(c *Ctx) {
 		}
 		R.Add("S.callbacks", shortFn(reader)+" / read callback once per message, before the hand-over to the writer", c.P.RelPos(reader.Pos()), st, d)
 	}
+	c.perConnectionHandlers(mk)
+	R.Require("E6.reply-table", 28, "")
+	R.Require("E6.echo", 4, "")
+	R.Require("S.serial-per-write", 3, "")
+	R.Require("S.single-consumer", 4, "")
+	R.Explain = "Structural necessary conditions of 'one correctly correlated reply per request': the registry's reply table equals the standard's; each reply body echoes the request's serial / ID / result / auth code / multimedia ID (symbolic values compared by identity); " +
+		"every frame-writing function draws exactly one serial, stores it into the request's own header before Encode, writes Encode's result, and never draws a serial without writing; one consumer of the message channel, all writes in the writer role; unsupported IDs are neither forwarded nor answered; handler objects are per connection. " +
+		"Counting replies over concrete histories and the 65536-wrap are not decided beyond the generator rule of C12."
+}
+
+// perConnectionHandlers: shared by C06 and C18 — every accepted connection gets handler objects of its own.
+func (c *Ctx) perConnectionHandlers(mk *ssa.Function) {
+	R := c.R
+	R.Rules["S.per-connection-handlers"] = "every accepted connection gets handler objects of its own (the default handler table is created inside the accept loop, not copied from a shared one): handlers parse into their receiver, so shared handler objects are written by the writer goroutines of several connections"
 	// ---- per-connection handler objects: the handler table given to every connection is created after its accept
 	newConn := c.P.Func("service", "newConnection")
 	if newConn == nil {
@@ -616,11 +630,4 @@ func runC06(c *Ctx) {
 			R.Fatal("no call site of service.newConnection found (anchor)")
 		}
 	}
-	R.Require("E6.reply-table", 28, "")
-	R.Require("E6.echo", 4, "")
-	R.Require("S.serial-per-write", 3, "")
-	R.Require("S.single-consumer", 4, "")
-	R.Explain = "Structural necessary conditions of 'one correctly correlated reply per request': the registry's reply table equals the standard's; each reply body echoes the request's serial / ID / result / auth code / multimedia ID (symbolic values compared by identity); " +
-		"every frame-writing function draws exactly one serial, stores it into the request's own header before Encode, writes Encode's result, and never draws a serial without writing; one consumer of the message channel, all writes in the writer role; unsupported IDs are neither forwarded nor answered; handler objects are per connection. " +
-		"Counting replies over concrete histories and the 65536-wrap are not decided beyond the generator rule of C12."
 }
